@@ -45,6 +45,7 @@ extra = {
  "5": "Prefer the glue between functions over the obvious core: error paths, default values, less-used API entry points and options, rarely-set struct fields, the second of two similar code paths (the CardDAV twin of a CalDAV function, MOVE next to COPY, HEAD next to GET), header or attribute handling, and interactions of two features. ",
  "7": "Prefer boundary values (zero, negative and very large numbers; empty strings, lists and bodies; the first and the last element), rarely used public entry points and options of the clients and servers, HEAD next to GET, DELETE and MKCOL on the CalDAV/CardDAV servers, and small 'harmless' API conveniences (defaults filled in, values normalised, lenient parsing). ",
  "8": "Prefer HTTP-level details (response headers such as Allow, DAV, Content-Type, Content-Length, Location and ETag; request header parsing; the choice among 4xx codes), OPTIONS and the capability / support queries of the clients, properties of COLLECTIONS rather than objects (resourcetype, displayname, descriptions, supported sets, sizes), and changes that only affect the second and later items of a list, or only the last one. ",
+ "9": "Prefer (1) 'defensive' validation, limits and normalisation that reject, truncate or rewrite LEGITIMATE inputs (lengths, counts, depths, character sets, letter case, duplicates, ordering), (2) state outside a function's arguments: reuse of buffers, slices, maps or package-level values between calls or between items of a list, aliasing between a caller's value and what the library keeps or returns, values captured by closures, dependence on map iteration order, (3) the less common of two encodings of the same thing (a header repeated on several lines, an XML namespace declared as default vs. prefixed, absolute-URI vs. path-only hrefs, percent-encoded vs. literal characters), and (4) behaviour that differs only when an optional value is EMPTY or ZERO. ",
  "6": "Prefer changes whose effect shows only through a SEQUENCE of operations or a COMBINATION of two inputs that are each harmless alone, and changes in helper functions shared by several callers where only one caller's behaviour changes. ",
 }.get(N, "")
 for k in props:
